@@ -178,10 +178,9 @@ pub fn test(t: &Test, r: &Record, now: u64) -> Result<bool, Undefined> {
 }
 
 fn name_match(pat: &str, s: &str, ci: bool) -> bool {
+    // the project's documented rule: a string with a glob character is matched as a pattern,
+    // any other string (a backslash included) is compared as it stands
     if has_glob(pat) {
-        fnmatch(pat, s, ci)
-    } else if pat.contains('\\') {
-        // fnmatch unquotes backslashes, plain comparison does not: same answer only via fnmatch
         fnmatch(pat, s, ci)
     } else {
         streq(pat, s, ci)
